@@ -254,6 +254,10 @@ func cmdASTFuzz(args []string) int {
 	}
 	bad := 0
 	for _, kind := range strings.Split(*kinds, ",") {
+		if kind == "rename" {
+			bad += renameFuzz(base, *repo, *files, runAll)
+			continue
+		}
 		for _, rel := range list {
 			abs := filepath.Join(*repo, rel)
 			src, err := os.ReadFile(abs)
@@ -586,4 +590,103 @@ func extractStatements(filename string, src []byte, pkgTypes *types.Package, inf
 		return nil, 0, err
 	}
 	return out, n, nil
+}
+
+// ---------------------------------------------------------------------------------------------------------------------
+// rename: every unexported package-level function, method, struct field, type, constant and variable of the analysed
+// packages is renamed (declaration and all uses, one object at a time) and all rules are run on the overlay. A rename
+// preserves behaviour: any report, and any anchor that can no longer be resolved, is a false alarm.
+// ---------------------------------------------------------------------------------------------------------------------
+
+func renameFuzz(base *Prog, repo, only string, runAll func(map[string][]byte) ([]string, string)) int {
+	bad := 0
+	for _, pk := range base.Pkgs {
+		if only != "" && !strings.Contains(","+only+",", ","+strings.TrimPrefix(strings.TrimPrefix(pk.PkgPath, modPath), "/")+",") {
+			continue
+		}
+		type site struct {
+			file string
+			off  int
+		}
+		objs := map[types.Object][]site{}
+		add := func(id *ast.Ident, obj types.Object) {
+			if obj == nil || obj.Pkg() != pk.Types || obj.Exported() || id.Name == "_" || id.Name == "init" || id.Name == "main" {
+				return
+			}
+			switch o := obj.(type) {
+			case *types.Func:
+			case *types.TypeName:
+			case *types.Const:
+				if o.Parent() != pk.Types.Scope() {
+					return
+				}
+			case *types.Var:
+				if !o.IsField() && o.Parent() != pk.Types.Scope() {
+					return // locals and parameters
+				}
+				if o.IsField() && o.Embedded() {
+					return
+				}
+			default:
+				return
+			}
+			pos := pk.Fset.Position(id.Pos())
+			if strings.HasSuffix(pos.Filename, "_test.go") {
+				return
+			}
+			objs[obj] = append(objs[obj], site{pos.Filename, pos.Offset})
+		}
+		for id, obj := range pk.TypesInfo.Defs {
+			add(id, obj)
+		}
+		for id, obj := range pk.TypesInfo.Uses {
+			add(id, obj)
+		}
+		var order []types.Object
+		for o := range objs {
+			order = append(order, o)
+		}
+		sort.Slice(order, func(i, j int) bool { return order[i].Pos() < order[j].Pos() })
+		for _, obj := range order {
+			newName := "zzr" + strings.ToUpper(obj.Name()[:1]) + obj.Name()[1:]
+			byFile := map[string][]int{}
+			for _, s := range objs[obj] {
+				byFile[s.file] = append(byFile[s.file], s.off)
+			}
+			overlay := map[string][]byte{}
+			for file, offs := range byFile {
+				src, err := os.ReadFile(file)
+				if err != nil {
+					continue
+				}
+				sort.Sort(sort.Reverse(sort.IntSlice(offs)))
+				last := -1
+				for _, off := range offs {
+					if off == last {
+						continue
+					}
+					last = off
+					src = append(src[:off:off], append([]byte(newName), src[off+len(obj.Name()):]...)...)
+				}
+				overlay[file] = src
+			}
+			kind := fmt.Sprintf("%T", obj)
+			kind = strings.TrimPrefix(kind, "*types.")
+			if v, ok := obj.(*types.Var); ok && v.IsField() {
+				kind = "Field"
+			}
+			label := fmt.Sprintf("%s %s.%s", kind, strings.TrimPrefix(pk.PkgPath, modPath+"/"), objName(obj))
+			keys, infra := runAll(overlay)
+			switch {
+			case strings.Contains(infra, "load/type-check errors") || strings.Contains(infra, "cannot load"):
+				fmt.Printf("skip  rename %-60s does not compile after the rename (interface method / test-only use)\n", label)
+			case len(keys) == 0 && infra == "":
+				fmt.Printf("ok    rename %s\n", label)
+			default:
+				bad++
+				fmt.Printf("ALARM rename %-60s %v %s\n", label, keys, infra)
+			}
+		}
+	}
+	return bad
 }
